@@ -478,8 +478,67 @@ pub fn run_c14(tier: Tier, seed: u64, index: u64, scratch: &Scratch, rec: &mut R
     }
     match kind {
         0 | 1 => {
-            let opts = GenOpts { ed_only_pct: if tier == Tier::Quick { 100 } else { 85 }, delegation_pct: 20, max_depth: 2, ..GenOpts::default() };
+            let mut opts = GenOpts { ed_only_pct: if tier == Tier::Quick { 100 } else { 85 }, delegation_pct: 20, max_depth: 2, ..GenOpts::default() };
+            // one world in ten has inspections whose commands print unusual output — multi-byte text of a length
+            // around the places where a program might cut it (a character then straddles the cut), bytes that are
+            // not UTF-8 — and end with a failure status or a signal now and then
+            let mut ir = Rng::stream(seed, "c14-inspection-output");
+            let odd_inspections = ir.chance(1, 10);
+            if odd_inspections {
+                opts.inspections = true;
+                opts.delegation_pct = 10;
+            }
             let (mut t, plan) = gen::baseline(seed, &opts);
+            if odd_inspections && !t.root.layout.inspect.is_empty() {
+                let cuts = [16usize, 32, 64, 72, 80, 100, 120, 128, 160, 200, 240, 255, 256, 300, 400, 500, 512, 800, 1000, 1024, 2000, 2048, 4096, 8192];
+                for i in t.root.layout.inspect.iter_mut() {
+                    let mut mk = |r: &mut Rng| -> Vec<u8> {
+                        match r.below(8) {
+                            0 => vec![],
+                            1 => vec![0xff, 0xfe, 0x00, 0xc3],
+                            _ => {
+                                let unit = ["\u{e9}", "\u{4e16}\u{754c}", "\u{1f600}", "a\u{fc}\u{20ac}"][r.idx(4)];
+                                let n = *r.pick(&cuts) + r.idx(9);
+                                let mut v = "x".repeat(r.idx(4));
+                                while v.len() < n {
+                                    v.push_str(unit);
+                                }
+                                v.into_bytes()
+                            }
+                        }
+                    };
+                    i.actor.stdout = mk(&mut ir);
+                    i.actor.stderr = mk(&mut ir);
+                    i.actor.exit = match ir.weighted(&[45, 40, 10, 5]) {
+                        0 => ExitSpec::Code(0),
+                        1 => ExitSpec::Code(*ir.pick(&[1, 2, 3, 126, 255])),
+                        2 => ExitSpec::Signal(9),
+                        _ => ExitSpec::NotFound,
+                    };
+                }
+                t.labels.push("ODD-INSPECTION-OUTPUT".into());
+            }
+            // now and then the damaged directory is an update, in place, of one the verifier has seen intact a
+            // moment ago (same paths, same inodes), delivered with time stamps as they come / preserved / older
+            // than before: what an earlier call left behind in the process must not make the next one crash
+            let mut er = Rng::stream(seed, "c14-environment");
+            if er.chance(1, 4) {
+                t.in_place = true;
+                match er.below(3) {
+                    0 => {}
+                    1 => t.fixed_mtime = true,
+                    _ => t.mtime_backwards = true,
+                }
+                t.same_thread = er.chance(1, 2);
+                let mut t0 = t.clone();
+                t0.labels.push("INTACT-FIRST".into());
+                write_current(scratch, &Trace::Supply(t0.clone()));
+                exec_supply("C14", &t0, scratch, rec, seed, index);
+                t.labels.push("UPDATED-IN-PLACE".into());
+                if t.mtime_backwards {
+                    t.labels.push("MTIME-BACKWARDS".into());
+                }
+            }
             if kind == 0 {
                 // storage faults on the link directory, before any signature is checked
                 let n = 1 + r.weighted(&[40, 30, 20, 10]);
